@@ -1385,11 +1385,69 @@ fn ok_main(_env: &mut VEnv, _args: Vec<Field>) -> BuiltinFuture<'_> {
 }
 
 pub fn observe(seed: u64, lines: &[Line]) -> String {
+    observe_impl(seed, lines, false)
+}
+
+/// [`observe`] plus the state the shell is left in (C02): ` end=e<errexit>m<monitor>p<pipefail>#<number of
+/// positional parameters>;fn=<function names, `!` = read-only>;t=<tick counters>;stk=<frames left on the
+/// stack>` read from the real `Env` after the EXIT trap.
+pub fn observe_full(seed: u64, lines: &[Line]) -> String {
+    observe_impl(seed, lines, true)
+}
+
+fn end_state(env: &mut VEnv) -> String {
+    use yash_env::option::{Option as ShellOption, State};
+    use yash_env::stack::Frame;
+    let on = |o: ShellOption| (env.options.get(o) == State::On) as u8;
+    let mut fns: Vec<String> = env
+        .functions
+        .iter()
+        .filter(|f| f.name != "errf")
+        .map(|f| format!("{}{}", f.name, if f.is_read_only() { "!" } else { "" }))
+        .collect();
+    fns.sort();
+    let mut ticks: Vec<(u32, String)> = vec![];
+    for (name, var) in env.variables.iter(Scope::Global) {
+        if let Some(c) = name.strip_prefix("_t").and_then(|c| c.parse::<u32>().ok()) {
+            if let Some(yash_env::variable::Value::Scalar(v)) = &var.value {
+                ticks.push((c, v.clone()));
+            }
+        }
+    }
+    ticks.sort();
+    let ticks: Vec<String> = ticks.iter().map(|(c, v)| format!("{c}:{v}")).collect();
+    let stk: String = env
+        .stack
+        .iter()
+        .map(|f| match f {
+            Frame::Loop => 'L',
+            Frame::Subshell => 'S',
+            Frame::Condition => 'C',
+            Frame::Builtin(_) => 'B',
+            Frame::DotScript => 'D',
+            Frame::Trap(_) => 'T',
+            Frame::InitFile => 'I',
+            _ => '?',
+        })
+        .collect();
+    format!(
+        "e{}m{}p{}#{};fn={};t={};stk={}",
+        on(ShellOption::ErrExit),
+        on(ShellOption::Monitor),
+        on(ShellOption::PipeFail),
+        env.variables.positional_params().values.len(),
+        fns.join(","),
+        ticks.join(","),
+        stk
+    )
+}
+
+fn observe_impl(seed: u64, lines: &[Line], full: bool) -> String {
     // unmodelled prologue: a function used by `(rederr function)`; it is never run
     let src = format!("errf() {{ probe 77; }}\n{}", render(seed, lines));
     let mut cfg = Config::new(&src);
     cfg.max_rounds = 50_000;
-    let (o, _) = run_with(
+    let (o, end) = run_with(
         cfg,
         |env, state| {
             env.builtins.insert("tick", Builtin::new(Type::Mandatory, tick_main));
@@ -1423,7 +1481,7 @@ pub fn observe(seed: u64, lines: &[Line]) -> String {
             let _ = ro.assign("0", None);
             ro.make_read_only(yash_syntax::source::Location::dummy("ro"));
         },
-        |_, _| (),
+        |env, _| end_state(env),
     );
     if o.stuck {
         return "TIMEOUT".into();
@@ -1436,6 +1494,9 @@ pub fn observe(seed: u64, lines: &[Line]) -> String {
         };
         let m = dec_str(hex).unwrap_or_default();
         trace.push(format!("{m}:{st}"));
+    }
+    if full {
+        return format!("trace={} status={} end={}", trace.join(","), o.exit_status, end.unwrap_or_else(|| "?".into()));
     }
     format!("trace={} status={}", trace.join(","), o.exit_status)
 }
@@ -1572,3 +1633,282 @@ pub fn run_case(case: &str) -> String {
     }
 }
 
+/// [`run_case`] with the richer observation of [`observe_full`] (c02)
+pub fn run_case_full(case: &str) -> String {
+    match parse_case(case) {
+        Some((seed, lines)) => {
+            watch_case(case, 60);
+            guarded(|| observe_full(seed, &lines))
+        }
+        None => "bad-case".into(),
+    }
+}
+
+
+// ---------------------------------------------------------------------------------------------
+// command-search family (C02): `search …` case lines
+//
+// Case: `search <posix><portable> <u|s|a>:<dirs> <exec files> <built-ins> <functions> <name>` where every string is
+// hex (`proto::enc_str`, empty = `-`), lists are comma-separated and an empty list is `.`; a built-in is
+// `<name>:<s|m|e|x|u>` (special, mandatory, elective, extension, substitutive).
+// Observation: `cl=<classify> se=<search> sp=<search_path> run=<what the shell ran>:<exit status>`:
+// the three public functions of yash-env/src/semantics/command/search.rs called on the real `Env`, and
+// the simple command `'<name>' arg` executed by the whole shell in the same environment (built-ins
+// print `B<type>`, functions print `F`, the simulated `execve` fails with ENOSYS → 126).
+// Model: lean/YashModel/Exec/Search.lean; Spec: Exec/SearchSpec.lean (POSIX XCU 2.9.1.4).
+
+pub mod search_family {
+    use super::*;
+    use crate::proto::enc_str;
+    use yash_env::io::Fd;
+    use yash_env::option::{Option as ShellOption, State};
+    use yash_env::semantics::command::search::{self, Availability, Target, Unusable};
+    use yash_env::system::concurrency::WriteAll as _;
+    use yash_env::variable::Value;
+
+    // no name that can resolve to a directory (`.`, the empty word): `VirtualSystem::is_executable_file`
+    // accepts directories, which `RealSystem::is_executable_file` does not (notes/C02.md)
+    const NAMES: [&str; 8] = ["na", "nb", ":", "eval", "source", "x/y", "/bin/na", "/opt/nb"];
+    const DIRS: [&str; 7] = ["/bin", "/usr/bin", "/opt", "/bin/", "", "rel", "/nonexistent"];
+    /// where files may exist (absolute; the working directory is `/`)
+    const FILE_DIRS: [&str; 5] = ["/bin", "/usr/bin", "/opt", "", "/rel"];
+    const FILE_NAMES: [&str; 6] = ["na", "nb", ":", "eval", "source", "x/y"];
+    const TYPES: [(char, Type); 5] = [
+        ('s', Type::Special),
+        ('m', Type::Mandatory),
+        ('e', Type::Elective),
+        ('x', Type::Extension),
+        ('u', Type::Substitutive),
+    ];
+
+    fn mark<'a>(env: &'a mut VEnv, text: &'static str) -> BuiltinFuture<'a> {
+        Box::pin(async move {
+            let _ = env.system.write_all(Fd::STDOUT, text.as_bytes()).await;
+            ExitStatus(0).into()
+        })
+    }
+    fn b_s(env: &mut VEnv, _a: Vec<Field>) -> BuiltinFuture<'_> { mark(env, "Bs\n") }
+    fn b_m(env: &mut VEnv, _a: Vec<Field>) -> BuiltinFuture<'_> { mark(env, "Bm\n") }
+    fn b_e(env: &mut VEnv, _a: Vec<Field>) -> BuiltinFuture<'_> { mark(env, "Be\n") }
+    fn b_x(env: &mut VEnv, _a: Vec<Field>) -> BuiltinFuture<'_> { mark(env, "Bx\n") }
+    fn b_u(env: &mut VEnv, _a: Vec<Field>) -> BuiltinFuture<'_> { mark(env, "Bu\n") }
+    fn fmark(env: &mut VEnv, _a: Vec<Field>) -> BuiltinFuture<'_> { mark(env, "F\n") }
+    /// `optset <posixlycorrect 0|1><portable 0|1>`: switches the two options (a mandatory built-in is
+    /// available in every mode)
+    fn optset(env: &mut VEnv, a: Vec<Field>) -> BuiltinFuture<'_> {
+        let v = a.first().map(|f| f.value.clone()).unwrap_or_default();
+        let on = |c: Option<char>| if c == Some('1') { State::On } else { State::Off };
+        env.options.set(ShellOption::PosixlyCorrect, on(v.chars().next()));
+        env.options.set(ShellOption::Portable, on(v.chars().nth(1)));
+        Box::pin(async move { ExitStatus(0).into() })
+    }
+
+    fn enc_list(v: &[String]) -> String {
+        if v.is_empty() { ".".into() } else { v.iter().map(|s| enc_str(s)).collect::<Vec<_>>().join(",") }
+    }
+    fn dec_list(t: &str) -> Option<Vec<String>> {
+        if t == "." { return Some(vec![]); }
+        t.split(',').map(dec_str).collect()
+    }
+
+    pub fn generate(rng: &mut Rng) -> String {
+        let posix = rng.chance(1, 4) as u8;
+        let portable = rng.chance(1, 4) as u8;
+        let kind = *rng.pick(&['s', 's', 's', 'a', 'u']);
+        let mut dirs: Vec<String> = vec![];
+        if kind != 'u' {
+            for _ in 0..rng.below(5) {
+                dirs.push((*rng.pick(&DIRS)).to_string());
+            }
+        }
+        let mut execs: Vec<String> = vec![];
+        for d in FILE_DIRS {
+            for n in FILE_NAMES {
+                if rng.chance(1, 5) {
+                    execs.push(format!("{d}/{n}"));
+                }
+            }
+        }
+        let name = (*rng.pick(&NAMES)).to_string();
+        // the searched name is an executable file somewhere in about half of the cases
+        if rng.chance(1, 2) {
+            let p = if name.starts_with('/') {
+                name.clone()
+            } else {
+                format!("{}/{}", rng.pick(&FILE_DIRS), name)
+            };
+            if !execs.contains(&p) {
+                execs.push(p);
+            }
+        }
+        // the searched name is a built-in / a function more often than the others
+        let mut builtins: Vec<String> = vec![];
+        let mut functions: Vec<String> = vec![];
+        for n in NAMES {
+            let p = if n == name { 2 } else { 5 };
+            if rng.chance(1, p) {
+                let ty = if rng.chance(1, 4) { 'u' } else { rng.pick(&TYPES).0 };
+                builtins.push(format!("{}:{ty}", enc_str(n)));
+            }
+            if !n.is_empty() && rng.chance(1, p + 1) {
+                functions.push(n.to_string());
+            }
+        }
+        let bl = if builtins.is_empty() { ".".to_string() } else { builtins.join(",") };
+        format!(
+            "search {posix}{portable} {kind}:{} {} {} {} {}",
+            enc_list(&dirs), enc_list(&execs), bl, enc_list(&functions), enc_str(&name)
+        )
+    }
+
+    fn show_path(p: &std::ffi::CStr) -> String {
+        enc_str(&p.to_string_lossy())
+    }
+
+    pub fn run(case: &str) -> String {
+        let t: Vec<&str> = case.split(' ').collect();
+        if t.len() != 7 || t[0] != "search" {
+            return "bad-case".into();
+        }
+        let opts = t[1].to_string();
+        let Some((kind, dl)) = t[2].split_once(':') else { return "bad-case".into() };
+        let kind = kind.to_string();
+        let (Some(dirs), Some(execs), Some(functions), Some(name)) =
+            (dec_list(dl), dec_list(t[3]), dec_list(t[5]), dec_str(t[6]))
+        else {
+            return "bad-case".into();
+        };
+        let mut builtins: Vec<(String, Type)> = vec![];
+        if t[4] != "." {
+            for b in t[4].split(',') {
+                let Some((n, ty)) = b.split_once(':') else { return "bad-case".into() };
+                let (Some(n), Some(ty)) = (dec_str(n), TYPES.iter().find(|x| x.0.to_string() == ty)) else {
+                    return "bad-case".into();
+                };
+                builtins.push((n, ty.1));
+            }
+        }
+        let mut src = String::new();
+        for f in &functions {
+            writeln!(src, "{f}() {{ fmark; }}").unwrap();
+        }
+        writeln!(src, "optset {opts}").unwrap();
+        writeln!(src, "'{name}' arg").unwrap();
+        let mut cfg = Config::new(&src);
+        cfg.max_rounds = 20_000;
+        let name2 = name.clone();
+        let (o, found) = run_with(
+            cfg,
+            move |env, state| {
+                env.builtins.insert("fmark", Builtin::new(Type::Mandatory, fmark));
+                env.builtins.insert("optset", Builtin::new(Type::Mandatory, optset));
+                // the names of the pool are what this case says and nothing else
+                for n in NAMES {
+                    env.builtins.remove(n);
+                }
+                for (n, ty) in &builtins {
+                    let f = match ty {
+                        Type::Special => b_s,
+                        Type::Mandatory => b_m,
+                        Type::Elective => b_e,
+                        Type::Extension => b_x,
+                        _ => b_u,
+                    };
+                    // the table is keyed by `&'static str`
+                    let key: &'static str = NAMES.iter().find(|k| **k == n.as_str()).copied().unwrap_or("");
+                    env.builtins.insert(key, Builtin::new(*ty, f));
+                }
+                for p in &execs {
+                    let mut inode = Inode::new(Vec::new());
+                    inode.body = FileBody::Regular { content: vec![], is_native_executable: true };
+                    inode.permissions.set(Mode::USER_EXEC, true);
+                    state.borrow_mut().file_system.save(p.as_str(), Rc::new(RefCell::new(inode))).unwrap();
+                }
+                // a plain file in every directory: found by name, not executable
+                for d in FILE_DIRS {
+                    crate::shell::write_file(state, &format!("{d}/plain"), b"");
+                }
+                match kind.as_str() {
+                    "u" => {
+                        let _ = env.variables.unset("PATH", Scope::Global);
+                    }
+                    "a" => {
+                        let mut path = env.variables.get_or_new("PATH", Scope::Global);
+                        let _ = path.assign(Value::array(dirs.clone()), None);
+                    }
+                    _ => {
+                        let mut path = env.variables.get_or_new("PATH", Scope::Global);
+                        let _ = path.assign(dirs.join(":"), None);
+                    }
+                }
+            },
+            move |env, _| {
+                let cl = match search::classify(env, &name2) {
+                    Target::Builtin { builtin, availability, .. } => format!(
+                        "B{}{}",
+                        TYPES.iter().find(|x| x.1 == builtin.r#type).map_or('?', |x| x.0),
+                        match availability {
+                            Availability::Available => 'A',
+                            Availability::NotPortable => 'N',
+                            #[allow(unreachable_patterns)]
+                            _ => '?',
+                        }
+                    ),
+                    Target::Function(_) => "F".into(),
+                    Target::External { .. } => "X".into(),
+                };
+                let se = match search::search(env, &name2) {
+                    Ok(Target::Builtin { builtin, path, .. }) => format!(
+                        "B{}:{}",
+                        TYPES.iter().find(|x| x.1 == builtin.r#type).map_or('?', |x| x.0),
+                        show_path(&path)
+                    ),
+                    Ok(Target::Function(_)) => "F".into(),
+                    Ok(Target::External { path }) => format!("X:{}", show_path(&path)),
+                    Err(e) => {
+                        let st = e.exit_status().0;
+                        match e {
+                            search::Error::NotFound => format!("Enotfound:{st}"),
+                            search::Error::Unusable(Unusable::NotInPath) => format!("Enotinpath:{st}"),
+                            search::Error::Unusable(Unusable::NotPortable) => format!("Enotportable:{st}"),
+                            #[allow(unreachable_patterns)]
+                            _ => format!("E?:{st}"),
+                        }
+                    }
+                };
+                let sp = match search::search_path(env, &name2) {
+                    Some(p) => show_path(&p),
+                    None => "none".into(),
+                };
+                format!("cl={cl} se={se} sp={sp}")
+            },
+        );
+        if o.stuck {
+            return "TIMEOUT".into();
+        }
+        let ran: Vec<String> = o.stdout_str().lines().map(|l| l.to_string()).collect();
+        let ran = if ran.is_empty() { "-".to_string() } else { ran.join("+") };
+        format!("{} run={}:{}", found.unwrap_or_else(|| "cl=? se=? sp=?".into()), ran, o.exit_status)
+    }
+
+    /// Independent of the Lean model: the simple command executed by the shell (which calls `classify`,
+    /// `resolve_builtin` and `search_path` at three different places) does what the one-call `search`
+    /// reports — same kind of target, and on failure the status of `Error::exit_status`.
+    pub fn oracle(obs: &str) -> String {
+        let get = |k: &str| obs.split(' ').find_map(|f| f.strip_prefix(k)).unwrap_or("");
+        let (se, run) = (get("se="), get("run="));
+        let Some((what, st)) = run.rsplit_once(':') else { return "FAIL:garbled".into() };
+        let ok = if let Some(e) = se.strip_prefix('E') {
+            what == "-" && e.rsplit_once(':').map(|x| x.1) == Some(st)
+        } else if se == "F" {
+            what == "F" && st == "0"
+        } else if let Some(b) = se.strip_prefix('B') {
+            what == format!("B{}", &b[..1]) && st == "0"
+        } else {
+            // an external utility: nothing of ours runs; the simulated execve fails (126), or the file
+            // of a name with a slash does not exist (127)
+            se.starts_with("X:") && what == "-" && (st == "126" || st == "127")
+        };
+        if ok { "ok".into() } else { "FAIL:shell-run-differs-from-search()".into() }
+    }
+}
